@@ -385,12 +385,19 @@ func (jenny RawTypes) fromJSONForTypeRec(context languages.Context, typeDef ast.
 			return fromJSONCode{DecodingCall: inputVar}
 		}
 
+		// each nesting level needs its own loop variable: the value expression of an inner
+		// comprehension refers to the keys of every enclosing one
+		keyVar := "key"
+		if depth := strings.Count(hint, "_map"); depth != 0 {
+			keyVar = fmt.Sprintf("key%d", depth)
+		}
+
 		valueType := typeDef.Map.ValueType
-		valueTypeFromJSON := jenny.fromJSONForTypeRec(context, valueType, inputVar+"[key]", hint+"_map", expanding)
+		valueTypeFromJSON := jenny.fromJSONForTypeRec(context, valueType, inputVar+"["+keyVar+"]", hint+"_map", expanding)
 
 		return fromJSONCode{
 			Setup:        valueTypeFromJSON.Setup,
-			DecodingCall: fmt.Sprintf(`{key: %[2]s for key in %[1]s.keys()}`, inputVar, valueTypeFromJSON.DecodingCall),
+			DecodingCall: fmt.Sprintf(`{%[3]s: %[2]s for %[3]s in %[1]s.keys()}`, inputVar, valueTypeFromJSON.DecodingCall, keyVar),
 		}
 	} else if typeDef.IsDisjunction() {
 		return jenny.disjunctionFromJSON(context, typeDef, inputVar, hint+"_union")
